@@ -355,12 +355,34 @@ def check(an: Analysis) -> None:
         if s.is_method and recv_expr is not None:
             ob6.inst(fi, recv_expr)
             r = unwrap(recv_expr)
+            # the component computed by a helper of this module (`_receiver(instance)`): each value the helper can return is
+            # judged as a component of its own
+            helper = prog.functions.get(an.callee(fi, r) or "") if isinstance(r, ast.Call) else None
+            if helper is not None and helper.module is fi.module and len(r.args) == 1 and not r.keywords and is_name(r.args[0], s.recv) and len(helper.param_names()) == 1:
+                hp = helper.param_names()[0]
+                finalized = any(isinstance(x, ast.Call) and an.callee(f_, x) == "weakref.finalize" for f_ in (fi, helper) for x in f_.own_nodes())
+                rets_ = [x for x in helper.own_nodes() if isinstance(x, ast.Return) and x.value is not None]
+                if not rets_:
+                    raise AnalysisError(f"C12.6: {helper.short} returns nothing")
+                for x in rets_:
+                    v_ = unwrap(x.value)
+                    ob6.inst(helper, x, "receiver component")
+                    if isinstance(v_, ast.Call) and an.callee(helper, v_) == "builtins.id" and v_.args and is_name(v_.args[0], hp):
+                        if not finalized:
+                            ob6.fail(helper, x, "the receiver is identified by id() alone (on this path nothing else stands for it): the id of a collected receiver is reused by a new object, which is then answered from the dead instance's (still retained) entries - nothing ties the entry's lifetime to the receiver")
+                    elif (isinstance(v_, ast.Call) and an.callee(helper, v_) == "weakref.ref" and v_.args and is_name(v_.args[0], hp)) or is_name(v_, hp):
+                        ob6.fail(fi, recv_expr, "receiver key component compares by == / hash of the receiver, not identity: two equal instances share cached results", construct="ref(<receiver>)" if isinstance(v_, ast.Call) else "<receiver>")
+                    else:
+                        raise AnalysisError(f"C12.6: unrecognised receiver key component `{stmt_text(v_)}` returned by {helper.short}")
+                r = ast.Constant(value=None)  # judged above
             uses_id = [x for x in ast.walk(r) if isinstance(x, ast.Call) and an.callee(fi, x) == "builtins.id" and x.args and is_name(x.args[0], s.recv)]
             weak = [x for x in fi.own_nodes() if isinstance(x, ast.Call) and (an.callee(fi, x) or "").startswith("weakref.")]
             if uses_id and not weak:
                 ob6.fail(fi, recv_expr, "the receiver is identified by id() alone: the id of a collected receiver is reused by a new object, which is then answered from the dead instance's (still retained) entries - nothing ties the entry's lifetime to the receiver")
             elif uses_id:
                 pass  # id() + a weak reference / finalizer that drops the entries with the receiver
+            elif isinstance(r, ast.Constant) and r.value is None:
+                pass
             elif (isinstance(r, ast.Call) and an.callee(fi, r) == "weakref.ref") or is_name(r, s.recv):
                 ob6.fail(fi, recv_expr, "receiver key component compares by == / hash of the receiver, not identity: two equal instances share cached results", construct="ref(<receiver>)" if isinstance(r, ast.Call) else "<receiver>")
             else:
@@ -640,3 +662,9 @@ def check(an: Analysis) -> None:
                             ob.fail(fi, st, f"an entry is kept in `{stmt_text(t.value)}`, not in the cache object's single `_cached` store: `limit` bounds each store on its own, so with several stores (one per receiver ...) more than `limit` entries stay alive and hits are answered outside the `limit` most recently used keys")
     if n < 20 and not elsewhere:
         raise AnalysisError(f"only {n} uses of _cached found (confirmed: 28)")
+    from ..engine import borrow
+    from . import c18
+
+    # C18.7: mimic_function never overwrites what the wrapper object already holds (its own _function, its store / lock / window /
+    # timeout): stacked wrappers would otherwise adopt each other's state and the inner function would be called directly
+    borrow(an, c18.check, {"C18.7": "C12.8"})
